@@ -709,6 +709,55 @@ def _selftest():
         ex.close()
 
 
+# ------------------------------------------------------------------------------ re-used model object
+
+@st.composite
+def reuse_case(draw):
+    n = draw(st.integers(1, 3))
+    return {"before": [draw(gen.mssm_onshell(tb=(1.5, 80.0))) for _ in range(n)],
+            "p": draw(gen.mssm_onshell(tb=(1.5, 80.0))),
+            "slha": draw(st.booleans())}
+
+
+def prop_reuse(case):
+    """an MSSM model object that has already served other parameter points (set, calculate, evaluate, set again ...)
+    gives for the next point bit for bit what a fresh object gives: every a_mu function, the helper arrays, the
+    DR-bar spectrum and the problem flags (the pole-mass struct is excluded: calculate_masses() documents that it
+    fills it only where it is still empty)"""
+    from .common import mssm
+    t = ["mssm"]
+    for q in case["before"]:
+        t += gen.mssm_set_tokens(q) + ["calc_masses", "dump", "amu", "x."]
+    t += gen.mssm_set_tokens(case["p"]) + ["calc_masses", "dump", "amu", "-", "dump", "helpers", "-", "dump", "all", "-"]
+    r = vx.shared().call(*t)
+    f = mssm.run_point(case["p"], dumps=("amu", "helpers", "all"))
+    for x in (r, f):
+        if isinstance(x, vx.Died):
+            return "inconclusive" if x.how.startswith("timeout") else Fail("executor died", how=x.how, stderr=x.stderr_tail[-800:])
+        if isinstance(x, vx.Err):
+            return Fail("executor failure", result=repr(x))
+    if "stopped" in r or "stopped" in f:
+        if ("stopped" in f) != ("stopped" in r) and "stopped" in f:
+            return Fail("a point the fresh object rejects is accepted on the re-used object", exc=f.get("exc"))
+        if "stopped" in f:
+            discard("point-rejected")
+            return None
+        # the re-used object stopped earlier: one of the earlier points was rejected - nothing to compare
+        discard("earlier-point-rejected")
+        return None
+    bad = []
+    for k in sorted(f):
+        if k.startswith(("ph.", "x.")) or k in ("log",):
+            continue
+        a, b = r.get(k), f.get(k)
+        if not same(a, b):
+            bad.append((k, a.hex() if isinstance(a, float) else a, b.hex() if isinstance(b, float) else b))
+    if bad:
+        return Fail("result on a re-used model object differs from the result on a fresh object", n_changed=len(bad),
+                    first=bad[:8])
+    return None
+
+
 def subchecks(ctx):
     reps = 5 if ctx.tier == "quick" else 20
     return [
@@ -718,6 +767,10 @@ def subchecks(ctx):
         Sub("batch", batch_case(), prop_batch, {"quick": 60, "thorough": 2000},
             nontrivial=lambda c: True, classes=classes_batch,
             rule="3..6 points rebuilt and evaluated in two visiting orders within one command; >= 2 accepted"),
+        Sub("reuse", reuse_case(), prop_reuse, {"quick": 100, "thorough": 4000},
+            nontrivial=lambda c: True, classes=lambda c: ["before:%d" % len(c["before"])],
+            rule="MSSM object that served 1..3 other points before: a_mu functions, helpers, spectrum, problem flags "
+                 "bit-identical to a fresh object"),
         Sub("threads", plan_case(reps), prop_threads, {"quick": 15, "thorough": 1000},
             nontrivial=nt_threads, classes=classes_threads,
             rule="thread plan: sequential reference, then %d concurrent repetitions under ThreadSanitizer; "
